@@ -63,7 +63,12 @@ func (t *TransactionManager) Confirm(id string) error {
 	if t.transaction == nil {
 		return fmt.Errorf("no ongoing transaction")
 	}
-	err := t.transaction.Confirm()
+	// the id must match before the transaction is touched
+	_, err := t.GetTransaction(id)
+	if err != nil {
+		return err
+	}
+	err = t.transaction.Confirm()
 	if err != nil {
 		return err
 	}
@@ -76,9 +81,14 @@ func (t *TransactionManager) Cancel(ctx context.Context, id string) error {
 	if t.transaction == nil {
 		return fmt.Errorf("no ongoing transaction")
 	}
+	// the id must match before the transaction is touched
+	_, err := t.GetTransaction(id)
+	if err != nil {
+		return err
+	}
 	rollbacktransAction := t.transaction.GetRollbackTransaction()
 
-	_, err := t.rollbacker.TransactionRollback(ctx, rollbacktransAction, false)
+	_, err = t.rollbacker.TransactionRollback(ctx, rollbacktransAction, false)
 	if err != nil {
 		return err
 	}
